@@ -111,10 +111,8 @@ func VerifC01_AddUnilateral() {
 	T := verifIntIn("T", one, w)
 	L := verifIntIn("L", one, w)
 	pool := e.seedPool("btc", S, T, L)
-	denom := "btc"
-	if verifChoice("side", 2) == 1 {
-		denom = csStd
-	}
+	e.donate(pool, "eth")
+	denom := csSide3()
 	amt := verifIntIn("amt", one, w)
 	e.bank.fund(e.sender, denom, verifIntIn("bal", big.NewInt(0), verifPow2(66)))
 	msg := &types.MsgAddUnilateralLiquidity{
@@ -154,10 +152,8 @@ func VerifC01_RemoveUnilateral() {
 	T := verifIntIn("T", one, w)
 	L := verifIntIn("L", one, w)
 	pool := e.seedPool("btc", S, T, L)
-	denom := "btc"
-	if verifChoice("side", 2) == 1 {
-		denom = csStd
-	}
+	e.donate(pool, "eth")
+	denom := csSide3()
 	burn := verifIntIn("burn", one, w)
 	own := verifIntIn("own", big.NewInt(0), w)
 	verifAssume(own.BigInt().Cmp(L.BigInt()) <= 0)
